@@ -369,8 +369,34 @@ fn oob_sweep(which: &str) -> Option<String> {
     r
 }
 
+/// what the compiled crate really does for the grid of `validate.iter` (translator validation)
+fn validate_iter() {
+    macro_rules! one { ($N:ty) => {{
+        let n = <$N>::USIZE;
+        for f in 0..=n { for b in 0..=(n - f) { for (which, args) in [("nth", n + 2), ("nth_back", n + 2), ("next", 1), ("next_back", 1)] { for k in 0..args {
+            reset(usize::MAX, usize::MAX);
+            let mut it = position::<$N>(f, b);
+            let before = DROPS.with(|d| *d.borrow());
+            let r = match which { "nth" => it.nth(k), "nth_back" => it.nth_back(k), "next" => it.next(), _ => it.next_back() };
+            let ret = r.as_ref().map(|e| e.0);
+            std::mem::forget(r);
+            let after = DROPS.with(|d| *d.borrow());
+            let dropped: Vec<usize> = (0..n).filter(|&i| after[i] > before[i]).collect();
+            let rem = it.as_slice().len();
+            // the remaining slice starts at the element with the smallest id still inside
+            let first = it.as_slice().first().map(|e| e.0);
+            let (index, index_back) = match first { Some(x) => (x, x + rem), None => (usize::MAX, usize::MAX) };
+            println!("V n={n} front={f} back={b} op={which} arg={k} ret={} len={rem} index={} index_back={} dropped={:?}", ret.map_or("None".to_string(), |x| x.to_string()),
+                if index == usize::MAX { "-".to_string() } else { index.to_string() }, if index_back == usize::MAX { "-".to_string() } else { index_back.to_string() }, dropped);
+            std::mem::forget(it);
+        } } } }
+    }} }
+    one!(U0); one!(U1); one!(U2); one!(U3);
+}
+
 fn main() {
     let args: Vec<String> = std::env::args().collect();
+    if args[1] == "validate.iter" { validate_iter(); return; }
     if args[1].ends_with(".oob") {
         match oob_sweep(&args[1]) {
             Some(msg) => { println!("REPRODUCED scenario={} {msg}", args[1]); std::process::exit(1) }
